@@ -10,6 +10,17 @@ HERE = os.path.dirname(os.path.abspath(__file__))
 VERIF = os.path.dirname(HERE)
 SEEDED = os.path.join(VERIF, "seeded")
 REPO = "/repo"
+# --isolated: work on a scratch worktree of /repo and a private copy of /verif, so that checks of the
+# unchanged tree can run at the same time (equivalent to apply / run / undo on /repo itself)
+if "--isolated" in sys.argv:
+    REPO = "/tmp/seeded_repo"
+    subprocess.run("git -C /repo worktree remove --force %s 2>/dev/null; git -C /repo worktree add -q %s HEAD" % (REPO, REPO), shell=True)
+    PRIV = "/tmp/seeded_verif"
+    subprocess.run("rm -rf %s && cp -r %s %s && rm -rf %s/replays %s/work && mkdir -p %s/work" % (PRIV, VERIF, PRIV, PRIV, PRIV, PRIV), shell=True)
+    CHECK_DIR = PRIV
+    os.environ["VERIF_REPO"] = REPO
+else:
+    CHECK_DIR = VERIF
 
 
 def sh(cmd, cwd=None, env=None, timeout=3600):
@@ -18,7 +29,7 @@ def sh(cmd, cwd=None, env=None, timeout=3600):
 
 
 def clean():
-    rc, out = sh("git -C /repo status --porcelain --untracked-files=no")
+    rc, out = sh("git -C %s status --porcelain --untracked-files=no" % REPO)
     return out.strip() == ""
 
 
@@ -31,6 +42,13 @@ def main():
     props = ["C%02d" % i for i in range(1, 19)]
     # evidence files must describe runs on the unchanged tree: keep them aside while changes are applied
     import shutil, tempfile
+    if CHECK_DIR != VERIF:
+        try:
+            run(ids, results, res_path, props, run_all)
+        finally:
+            sh(["git", "-C", REPO, "checkout", "--", "."])
+        return
+    os.makedirs(os.path.join(VERIF, "work"), exist_ok=True)
     keep = tempfile.mkdtemp(prefix="evidence_keep_", dir=os.path.join(VERIF, "work"))
     shutil.copytree(os.path.join(VERIF, "evidence"), os.path.join(keep, "evidence"))
     try:
@@ -58,7 +76,7 @@ def run(ids, results, res_path, props, run_all):
                 rec["error"] = "patch does not apply: " + out[-300:]
                 results[sid] = rec
                 continue
-            rc, out = sh("/venv/bin/python -m pytest -q -p no:cacheprovider 2>&1 | tail -1", cwd=REPO)
+            rc, out = sh("/venv/bin/python -m pytest -q -p no:cacheprovider 2>&1 | tail -1", cwd=REPO, env=dict(os.environ, PYTHONPATH=os.path.join(REPO, "src")))
             rec["tests"] = out.strip()
             env = dict(os.environ, PYTHONPATH=os.path.join(REPO, "src"))
             rc, out = sh(["/venv/bin/python", os.path.join(d, "demo.py")], cwd=REPO, env=env, timeout=600)
@@ -67,7 +85,7 @@ def run(ids, results, res_path, props, run_all):
             caught = {}
             for p in todo:
                 t0 = time.time()
-                rc, out = sh([os.path.join(VERIF, "check"), p, "--tier", "quick"], cwd=VERIF, timeout=3000)
+                rc, out = sh([os.path.join(CHECK_DIR, "check"), p, "--tier", "quick"], cwd=CHECK_DIR, timeout=3000)
                 viol = [l for l in out.split("\n") if l.startswith("VIOLATION")]
                 why = [l for l in out.split("\n") if l.startswith(("failing input", "obligation no longer"))][:3]
                 caught[p] = {"exit": rc, "violation": bool(viol), "no_failing_input_found": any("no-failing-input-found" in v for v in viol),
